@@ -188,6 +188,21 @@ CHECKS = {
         "expressions outside QExpr's exact domain make an event unjudged.",
    technique="TLA+ reference interpreter of the template language; TLC batch oracle over recorded renders of generated ASTs",
    design="6 (C02), appendix E.4/G"),
+ "C01": dict(
+   text="The tag scanner TemplateCore::parse is an explicit TLA+ state machine (QTemplateParseImpl: tag tree with destruction and "
+        "relocation of containers, container stack, current container, innermost-loop pointer, is_child; one action per case of the "
+        "scanner's switch, text-dependent outcomes nondeterministic). TLC decides for every token sequence up to length 6 (thorough 8): "
+        "no null tag dereferenced, storage / stack entries live, loop_tag and its Parent chain live, every surviving record closed, "
+        "levels only copied from enclosing loops; the scanner's two earlier behaviours are rejected by the same invariants. Through hook "
+        "H2 the real scanner reports its complete state before every token and TLC (TraceQTemplateParse) accepts a step only if the "
+        "model has that transition (code -> spec, every recorded state also checked against the invariants). The same generated texts "
+        "(token-class sequences in several spellings, cuts / deletions / duplications / delimiter swaps of well-formed templates, quotes "
+        "and brackets in attributes, nests 300 and 600 deep) are rendered from exact-size unterminated buffers in 4 character widths, in "
+        "SSE2 / scalar / AVX2 / auto-escape-off builds under ASan+UBSan with a per-case alarm; tag-free texts must render to themselves (TLC).",
+   note="the model is exhaustive only up to the token bound; out-of-bounds accesses, traps and hangs of the renderer are sensed "
+        "(sanitizers, alarm) on generated inputs, not proved; one recorded finding: recursion depth is proportional to nesting depth.",
+   technique="TLA+ state machine of the tag scanner checked by TLC + trace validation of hook-recorded scanner states; sanitizer-sensed rendering of generated malformed texts",
+   design="6 (C01), appendix E.6"),
 }
 PENDING = "not yet claimed in this revision: its specification and conformance harness are still being built (DESIGN.md section 6 describes the plan)"
 m = {
